@@ -160,6 +160,21 @@ def builtin_scheme(name):
         vals = {"k.1": 0.11, "k.2": 1.3, "k.3": 7.0, "irf.c": 0.1, "irf.w1": 0.12, "irf.w2": 0.4, "irf.s1": 1.0, "irf.s2": 0.3,
                 "irf.dc": 650.0, "irf.d1": 0.2, "irf.d2": -0.05, "irf.wd1": 0.02, "osc.f": 35.0, "osc.r": 0.4, "sc.2": 1.7}  # fmt: skip
         data = {"d1": B.noisy_dataset(t, g), "d2": B.noisy_dataset(t, g[1:] + 5.0, salt="d2")}
+    elif name == "multi_gaussian_irf_pfid":
+        # index-independent IRF with three Gaussian components (several components per kernel call), PFID and an
+        # artifact that takes its width from the IRF
+        md = {
+            "megacomplex": {"m1": {"type": "decay-parallel", "compartments": ["s1", "s2"], "rates": ["k.1", "k.2"]},
+                            "m2": {"type": "coherent-artifact", "order": 2},
+                            "m3": {"type": "pfid", "labels": ["p1"], "frequencies": ["pf.f"], "rates": ["pf.r"]}},
+            "irf": {"irf1": {"type": "multi-gaussian", "center": ["irf.c", "irf.c2"], "width": ["irf.w1", "irf.w2", "irf.w3"],
+                             "scale": ["irf.s1", "irf.s2", "irf.s3"]}},
+            "dataset": {"d1": {"megacomplex": ["m1", "m2", "m3"], "irf": "irf1"}},
+        }  # fmt: skip
+        md["irf"]["irf1"]["center"] = ["irf.c", "irf.c2", "irf.c3"]
+        vals = {"k.1": 0.11, "k.2": 1.3, "irf.c": 0.1, "irf.c2": 0.25, "irf.c3": -0.1, "irf.w1": 0.12, "irf.w2": 0.4, "irf.w3": 0.2,
+                "irf.s1": 1.0, "irf.s2": 0.3, "irf.s3": 0.15, "pf.f": 640.0, "pf.r": -0.8}  # fmt: skip
+        data = {"d1": B.noisy_dataset(t, g)}
     elif name == "general_decay_no_irf_penalty":
         tt = t[t >= 0]
         md = {
@@ -262,7 +277,7 @@ def case_builtin_history(case):
     return core.ok(key=dg, outcome=str(info["outcome"])[:40], violations=vs)
 
 
-BUILTIN_SCHEMES = ["dispersed_irf_artifact_oscillation", "general_decay_no_irf_penalty", "full_model_spectral"]
+BUILTIN_SCHEMES = ["dispersed_irf_artifact_oscillation", "general_decay_no_irf_penalty", "full_model_spectral", "multi_gaussian_irf_pfid"]
 
 
 def case_history(case):
@@ -352,12 +367,49 @@ def case_optimize_twice(case):
     return core.ok(key=[case["opts"], case["method"], case["add_svd"]], outcome=fps[0]["nfev"] if fps else None, violations=vs)
 
 
+def case_insitu(case):
+    """E5 in situ: one objective evaluation of a builtin scheme with every numba dispatcher of the package replaced by its
+    Python source under the recording proxies (vf/insitu.py); conflict relation of every parallel region must be empty
+    and the penalty must agree with the compiled evaluation"""
+    from glotaran.optimization.optimizer import Optimizer
+
+    from vf.insitu import InSitu
+
+    def penalty():
+        scheme = builtin_scheme(case["scheme"])
+        opt = Optimizer(scheme, verbose=False, raise_exception=True)
+        labels, x0, _, _ = scheme.parameters.get_label_value_and_bounds_arrays(exclude_non_vary=True)
+        opt._free_parameter_labels = labels
+        with warnings.catch_warnings():
+            warnings.simplefilter("ignore")
+            return np.array(opt.objective_function(builtin_vector(x0, 1)), dtype=float)
+
+    compiled = penalty()
+    with InSitu() as ins:
+        traced = penalty()
+    vs = []
+    regions = iters = 0
+    for name, rep in sorted(ins.reports.items()):
+        regions += rep["regions"]
+        iters += rep["parallel_iterations"]
+        for c in rep["conflicts"]:
+            vs.append(V("parallel-iterations-conflict/in-situ", kernel=name, scheme=case["scheme"], **c))
+    scale = max(1.0, float(np.abs(compiled).max()))
+    if traced.shape != compiled.shape or not np.abs(traced - compiled).max() <= 1e-9 * scale:
+        vs.append(V("python-source-and-compiled-kernels-disagree/in-situ", scheme=case["scheme"],
+                    max_abs=float(np.abs(traced - compiled).max()) if traced.shape == compiled.shape else None))  # fmt: skip
+    used = {n: {k: r[k] for k in ("parallel", "outer_calls", "regions", "parallel_iterations", "accesses", "not_instrumented")}
+            for n, r in ins.reports.items() if r["outer_calls"] or r["not_instrumented"]}  # fmt: skip
+    return core.ok(key=case["scheme"], outcome={"kernels": used}, violations=vs, states=max(1, regions), transitions=max(1, iters),
+                   traces=max(1, regions))  # fmt: skip
+
+
 from vf.checks.c10_kernels import case_kernel  # noqa: E402
 
 WATCHDOG = {"optimize_twice": 90}  # fits can spin inside scipy/numpy on overflowing input (C15 known finding)
 
 CASE_FUNCS = {"histories": case_histories, "history": case_history, "optimize_twice": case_optimize_twice,
-              "kernel": case_kernel, "builtin_histories": case_builtin_histories, "builtin_history": case_builtin_history}  # fmt: skip
+              "kernel": case_kernel, "insitu": case_insitu, "builtin_histories": case_builtin_histories, "builtin_history": case_builtin_history}  # fmt: skip
 
 
 def run(run: core.Run):
@@ -380,6 +432,7 @@ def run(run: core.Run):
     from vf.checks import c10_kernels
 
     c10_kernels.run_kernels(run)
+    run.map("insitu", [{"scheme": n} for n in BUILTIN_SCHEMES], part="prange-in-situ")
     run.rule = (
         "E2: BFS over sequences of objective evaluations (4 parameter vectors + 1 at which the model raises) on a fresh "
         "real Optimizer per history, for every scheme of the t-way feature enumeration; state = deep digest of all "
